@@ -43,6 +43,7 @@ type Case struct {
 	Scripts [][][]int64 `json:"scripts"`
 	Sched   []int       `json:"sched"`
 	Free    bool        `json:"free"`
+	Items   []int64     `json:"items"` // kind "wp": per item, does the mapper / walk function panic
 }
 
 type Out struct {
@@ -351,6 +352,64 @@ func runPL(c Case, ctl *sched.Ctl, mon *monitor, wg *sync.WaitGroup) {
 	}
 }
 
+// mr.ForEach / fx Walk under a forced schedule: actor 0 is the caller, actor 1+i the worker
+// that runs the user function on item i (gate inside the function).
+func runWP(c Case, ctl *sched.Ctl, mon *monitor, wg *sync.WaitGroup) {
+	var running int32
+	fn := func(i int) {
+		id := 1 + i
+		if v := atomic.AddInt32(&running, 1); int(v) > c.N {
+			mon.report("%s: %d workers inside the user function, cap %d", c.Obj, v, c.N)
+		}
+		ctl.Log(id, "fs", 0)
+		ctl.Gate(id, "fn", 0)
+		if c.Free {
+			spin(i % 4)
+		}
+		ctl.Log(id, "fe", 0)
+		atomic.AddInt32(&running, -1)
+		ctl.Done(id)
+		if c.Items[i] == 1 {
+			panic("user function panic")
+		}
+	}
+	wg.Add(1)
+	ctl.Go(0, func() {
+		defer wg.Done()
+		ctl.Gate(0, "call", 0)
+		ctl.Log(0, "inv", 0, 0)
+		r := int64(1)
+		func() {
+			defer func() {
+				if p := recover(); p != nil {
+					r = 3
+				}
+			}()
+			switch c.Obj {
+			case "mr":
+				mr.ForEach(func(source chan<- int) {
+					for i := range c.Items {
+						source <- i
+					}
+				}, func(item int) { fn(item) }, mr.WithWorkers(c.N))
+			case "fx":
+				fx.From(func(source chan<- any) {
+					for i := range c.Items {
+						source <- i
+					}
+				}).Walk(func(item any, pipe chan<- any) { fn(item.(int)) }, fx.WithWorkers(c.N)).Done()
+			default:
+				fx.From(func(source chan<- any) {
+					for i := range c.Items {
+						source <- i
+					}
+				}).Parallel(func(item any) { fn(item.(int)) }, fx.WithWorkers(c.N))
+			}
+		}()
+		ctl.Log(0, "ret", 0, r)
+	})
+}
+
 // worker caps of mr and fx: direct gauge only
 func runMrFx(c Case, mon *monitor) {
 	var g int32
@@ -412,6 +471,8 @@ func runCase(c Case) (out Out) {
 		runTR(c, ctl, mon, &wg)
 	case "pl":
 		runPL(c, ctl, mon, &wg)
+	case "wp":
+		runWP(c, ctl, mon, &wg)
 	default:
 		out.Err = "unknown kind " + c.Kind
 		return out
